@@ -186,6 +186,12 @@ func (e Ev) L(k string) []any {
 			r[i] = v[i]
 		}
 		return r
+	case []int:
+		r := make([]any, len(v))
+		for i := range v {
+			r[i] = v[i]
+		}
+		return r
 	}
 	return nil
 }
